@@ -553,7 +553,10 @@ def _sdv_agrees(sdv, pieces, va: str, vb: str) -> bool:
 
 
 def _values_ok(va: str, vb: str) -> bool:
-    la, lb = ob.case().get('vlen', (1, 1))  # lengths of the symbol values (case); the characters are free
+    c = ob.case()
+    # lengths of the symbol values (case); the characters are free.  No reference can occur: no values.
+    la, lb = c.get('vlen', (1, 1) if '@' in c['mask'] or '@' in ''.join(HOLES[m] for m in c['mask'] if m in HOLES)
+                   else (0, 0))
     return len(va) == la and len(vb) == lb
 
 
@@ -576,6 +579,21 @@ def _after_token_ok(ts, s: str, toks, err, k: int, end_prev: int) -> bool:
     if err is None:
         return st is LookAheadState.NULL
     return st is LookAheadState.SYNTAX_ERROR and pos <= err
+
+
+SPECIAL_WORDS = ref.RESERVED + ('\\', ':>')
+
+
+def _glued_special(t) -> bool:
+    """A keyword, reserved word or whole symbol reference written naked with an (empty) quotation glued to
+    it, e.g. `)""`: whether that is "unquoted" is not documented -> outside the claim."""
+    if len(t.parts) < 2 or t.parts[0][0] != ref.NAKED:
+        return False
+    w = t.string
+    if w in SPECIAL_WORDS:
+        return True
+    frs = ref.split_refs(w)
+    return len(frs) == 1 and frs[0][0]
 
 
 def _is_reserved_word_token(t) -> bool:
@@ -623,7 +641,7 @@ def _pre_k3(h: str, va: str, vb: str) -> bool:
     if len(toks) > 0:
         parts = toks[0].parts
         # a reference that is split over two adjacent fragments: outside the claim (undocumented)
-        if ref.reference_straddles(parts):
+        if ref.reference_straddles(parts) or _glued_special(toks[0]):
             return False
         if ob.excluded(REGION_MIXED) and ref.is_mixed_hard(parts) and ref.n_refs(toks[0].string) > 0:
             return False
@@ -681,6 +699,8 @@ def k3_denote(h: str, va: str, vb: str) -> bool:
 
 
 K3_OUTSIDE = ('tokens in which a symbol reference is split over two adjacent fragments (e.g. `@[A"]@"`): undocumented',
+              'a reserved word, `)`, backslash, `:>` or a whole symbol reference written naked with a quotation glued to '
+              'it (e.g. `)""`, `=\'\'`, `@[A]@""`): whether it counts as unquoted is undocumented',
               'symbols of type path; symbol values longer than 2 characters (values are only concatenated)')
 
 
@@ -894,9 +914,9 @@ def _ref_list(s: str, values, list_values, bug: bool):
             # continuation (seeded oracle error: a backslash is an ordinary element)
             e = _line_end(s, t.end)
             k += 1
-            end_prev = e
             if e >= len(s):
                 return ('ok', elements if defined else None, names, k, e, True)
+            end_prev = e + 1  # the list goes on at the start of the next line
             line_end = _line_end(s, e + 1)
             continue
         if _is_naked_word(t, ')'):
@@ -932,7 +952,7 @@ def _pre_k5l(h: str, va: str, vb: str) -> bool:
     s = _fill(ob.case()['mask'], h)
     toks, err = ref.tokenize(s)
     for t in toks:
-        if ref.reference_straddles(t.parts):
+        if ref.reference_straddles(t.parts) or _glued_special(t):
             return False
         if ob.excluded(REGION_MIXED) and ref.is_mixed_hard(t.parts) and ref.n_refs(t.string) > 0:
             return False
